@@ -67,7 +67,11 @@ func MoveDecl(t *rapid.T, p *Prog) TransformInfo {
 	d := from.Decls[i]
 	var to *File
 	if len(regs) < 3 && rapid.Bool().Draw(t, "newFile") || len(regs) == 1 {
-		to = &File{Name: fmt.Sprintf("f%d.go", len(regs)+3), Kind: FileRegular, Pkg: pkg, Aliases: map[*Pkg]string{}}
+		name := fmt.Sprintf("f%d.go", len(regs)+3)
+		if rapid.Bool().Draw(t, "newFileSortsFirst") {
+			name = fmt.Sprintf("a%d.go", len(regs)+3) // before f0.go: the files of a package are visited in name order
+		}
+		to = &File{Name: name, Kind: FileRegular, Pkg: pkg, Aliases: map[*Pkg]string{}}
 		for k, v := range from.Aliases {
 			to.Aliases[k] = v
 		}
@@ -88,6 +92,23 @@ func MoveDecl(t *rapid.T, p *Prog) TransformInfo {
 	nd = append(nd, to.Decls[j:]...)
 	to.Decls = nd
 	return TransformInfo{Label: "move-decl", Moved: true, Reordered: true}
+}
+
+// RenameFile renames a regular file so that it sorts before or after its
+// siblings: the same declarations, visited in another file order.
+func RenameFile(t *rapid.T, p *Prog) TransformInfo {
+	pkg := p.Pkgs[rapid.IntRange(0, len(p.Pkgs)-1).Draw(t, "renPkg")]
+	regs := regularFiles(pkg)
+	if len(regs) < 2 {
+		return TransformInfo{Label: "rename-file(noop)"}
+	}
+	f := regs[rapid.IntRange(0, len(regs)-1).Draw(t, "renFile")]
+	prefix := rapid.SampledFrom([]string{"a_", "zz_"}).Draw(t, "renPrefix")
+	if strings.HasPrefix(f.Name, "a_") || strings.HasPrefix(f.Name, "zz_") {
+		return TransformInfo{Label: "rename-file(noop)"}
+	}
+	f.Name = prefix + f.Name
+	return TransformInfo{Label: "rename-file", Moved: true, Reordered: true}
 }
 
 // InsertLayout adds blank lines and ordinary comments before random nodes.
